@@ -59,6 +59,34 @@ void h_read_token(void){ size_t n; g_remaining = n; g_consumed = 0; read_token()
 #endif
 '''
 
+REPLAY_PITCH = r"""
+// native replay (ASan / UBSan): uncompressed BMPs of every width 1..40 and bit depth 1, 4, 8, 24, 32 decoded through read_image; every pixel compared with the file content
+#include <boost/gil.hpp>
+#include <boost/gil/extension/io/bmp.hpp>
+#include <sstream>
+#include <vector>
+#include "vreplay.hpp"
+using namespace boost::gil;
+static void put16(std::string& s, unsigned v) { s.push_back((char)(v & 255)); s.push_back((char)((v >> 8) & 255)); }
+static void put32(std::string& s, unsigned v) { put16(s, v & 65535); put16(s, v >> 16); }
+static unsigned idx(int x, int y, int bpp) { return (unsigned)(x * 7 + y * 3 + 1) % (1u << (bpp > 8 ? 8 : bpp)); }
+static std::string make_bmp(int W, int H, int bpp) { std::string s; int pal = bpp <= 8 ? (1 << bpp) : 0; unsigned pitch = ((unsigned)(W * bpp + 31) / 32) * 4, off = 14 + 40 + 4 * pal;
+  s += "BM"; put32(s, off + pitch * H); put32(s, 0); put32(s, off); put32(s, 40); put32(s, W); put32(s, H); put16(s, 1); put16(s, bpp); put32(s, 0); put32(s, pitch * H); put32(s, 2835); put32(s, 2835); put32(s, pal); put32(s, 0);
+  for (int i = 0; i < pal; i++) { s.push_back((char)(i * 3)); s.push_back((char)(i * 5)); s.push_back((char)(i * 7)); s.push_back(0); }
+  for (int fy = 0; fy < H; fy++) { std::string row(pitch, '\0'); int y = H - 1 - fy;
+    for (int x = 0; x < W; x++) { unsigned v = idx(x, y, bpp);
+      if (bpp == 1) row[x / 8] |= (char)(v << (7 - x % 8)); else if (bpp == 4) row[x / 2] |= (char)(v << ((x & 1) ? 0 : 4)); else if (bpp == 8) row[x] = (char)v;
+      else { int n = bpp / 8; row[x * n] = (char)(v * 3); row[x * n + 1] = (char)(v * 5); row[x * n + 2] = (char)(v * 7); if (n == 4) row[x * n + 3] = (char)255; } }
+    s += row; }
+  return s; }
+int main(int argc, char** argv){ vr::parse(argc, argv); long bad = 0;
+  for (int bpp : {1, 4, 8, 24, 32}) for (int W = 1; W <= 40; W++) for (int H : {1, 3}) { std::string f = make_bmp(W, H, bpp); std::istringstream in(f, std::ios::binary); rgb8_image_t img;
+    try { read_and_convert_image(in, img, bmp_tag()); } catch (std::exception const& e) { if (!bad++) std::printf("valid %d-bit %dx%d BMP rejected: %s\n", bpp, W, H, e.what()); continue; }
+    if (img.width() != W || img.height() != H) { bad++; continue; }
+    for (int y = 0; y < H; y++) for (int x = 0; x < W; x++) { unsigned v = idx(x, y, bpp); rgb8_pixel_t want((unsigned char)(v * 7), (unsigned char)(v * 5), (unsigned char)(v * 3)); if (view(img)(x, y) != want) { if (!bad++) std::printf("%d-bit %dx%d BMP: pixel (%d,%d) = (%d,%d,%d), file says (%d,%d,%d)\n", bpp, W, H, x, y, (int)view(img)(x, y)[0], (int)view(img)(x, y)[1], (int)view(img)(x, y)[2], (int)want[0], (int)want[1], (int)want[2]); } } }
+  if (bad) REPRODUCED("%ld uncompressed BMP decodes differ from the file content", bad);
+  NOT_REPRODUCED("uncompressed 1/4/8/24/32-bit BMPs of width 1..40 decode to the file content"); }
+"""
 X_BMP = [X('pitch_read', BMP, r'"Image types aren\'t compatible\."\s*\);(.*?)switch\( this->_info\._bits_per_pixel \)', kind='expr',
            rules=[('R3.info_w', r'this->_info\._width', 'self->_width', True), ('R3.info_bpp', r'this->_info\._bits_per_pixel', 'self->_bits_per_pixel', True),
                   ('R3.pitch', r'(?<![\w>])_pitch\b', 'self->_pitch', True)]),
@@ -191,7 +219,7 @@ UNITS = [
          preconditions=['input length <= 2^40 bytes'],
          assumed=['the device delivers arbitrary bytes and then EOF (DEV_getc)', 'the member buffer is `char _text_buffer[16]` (pnm/detail/scanline_read.hpp; size asserted by the extraction anchor of the declaration)',
                   'isdigit / isspace in the "C" locale']),
-    Unit('bmp_pitch', 'C11', BMP_C, extracts=X_BMP,
+    Unit('bmp_pitch', 'C11', BMP_C, extracts=X_BMP, replay=REPLAY_PITCH,
          checks=[Check('pitch_read', 'h_pitch_read', enforce='pitch_read', timeout=600), Check('pitch_scanline', 'h_pitch_scanline', enforce='pitch_scanline', timeout=600)],
          preconditions=['BMP width 0..2^24; bit depth one of 1, 4, 8, 15, 16, 24, 32 (the depths the decoder dispatches on)'],
          assumed=['bytes consumed per row by read_palette_image / read_data_15 / read_data: ceil(w/8), ceil(w/2), w, 2w, 2w, 3w, 4w (read off the row decoders; not extracted)']),
@@ -200,6 +228,47 @@ UNITS = [
     *bmp_hdr.UNITS,
     Unit('decoders_native', 'C11', '/* bounded native stand-in, no extracted body */\n', checks=[Check('crafted_files', 'none', engine='N', native=NATIVE, timeout=1800, flags=['sanitize'])]),
 ]
+# ---------------------------------------------------------------------------------------------------------------------------------------
+# Row buffers for bit-aligned pixels (io/row_buffer_helper.hpp, bmp scanline reader): a pixel is read by loading the whole bit field that
+# starts at its first byte, so the buffer must extend sizeof(bit field) - 1 bytes behind the last byte that holds pixels (defect fixed in
+# /repo: valid 4-bit BMPs of width 8n-1 / 8n were read one byte past the heap buffer).
+RBH = 'boost/gil/io/row_buffer_helper.hpp'
+X_RB = [X('rbh_ctor', RBH, r'row_buffer_helper\(std::size_t width, bool in_bytes\)\s*:\s*_c\{[^;]*?\}\s*,\s*_r\{[^;]*?\}\s*\{', count=1, meminit=True, members=['_c', '_r', '_size'],
+          rules=[('R8.bits', r'pixel_bit_size<\s*pixel_type\s*>::value', 'PIXEL_BITS', True), ('R8.bf', r'sizeof\(typename pixel_type::bitfield_t\)', 'BITFIELD_BYTES', False),
+                 ('R14.resize', r'_row_buffer\.resize\((.*?)\);', r'self->buf_n = (\1);', True)]),
+        X('scan4_buf', BMS, r'read_palette\(\);\s*(?://[^\n]*\n\s*)?_buffer\.resize\(([^;]*?)\);\s*_read_function = std::mem_fn\(&this_t::read_4_bits_row\);', kind='expr',
+          rules=[('R3.pitch', r'(?<![\w>])_pitch\b', 'pitch', True), ('R8.bf4', r'sizeof\(\s*gray4_image_t::view_t::reference::bitfield_t\s*\)', 'BITFIELD_BYTES', False)])]
+RB_C = r"""
+typedef struct { size_t _c, _r, _size, buf_n; } rbh_t;
+size_t g_i;      /* ghost: index of an arbitrary pixel of the row */
+#define FIRST_BYTE(i) (((i) * (size_t)PIXEL_BITS) >> 3)
+void rbh_ctor(rbh_t* self, size_t width, _Bool in_bytes)
+__CPROVER_requires(__CPROVER_is_fresh(self, sizeof(*self)) && width <= ((size_t)1 << 32) && g_i <= ((size_t)1 << 36))
+__CPROVER_assigns(self->_c, self->_r, self->_size, self->buf_n)
+__CPROVER_ensures(self->_size == (in_bytes ? width : (width * PIXEL_BITS + 7) / 8))                       /* bytes that hold pixels */
+__CPROVER_ensures(!(FIRST_BYTE(g_i) < self->_size) || FIRST_BYTE(g_i) + BITFIELD_LOAD_BYTES <= self->buf_n)   /* the bit-field load of EVERY pixel that starts inside those bytes stays inside the buffer */
+@@rbh_ctor@@
+/* bmp scanline reader, 4-bit rows: _buffer.resize(<expr>) */
+size_t scan4_buffer_size(size_t pitch)
+__CPROVER_requires(pitch <= ((size_t)1 << 32) && g_i <= ((size_t)1 << 36))
+__CPROVER_assigns()
+__CPROVER_ensures(!(FIRST_BYTE(g_i) < pitch) || FIRST_BYTE(g_i) + BITFIELD_LOAD_BYTES <= __CPROVER_return_value)
+{ return @@scan4_buf@@; }
+#ifndef VERIF_NATIVE
+void h_rbh(void){ rbh_t* s; size_t w; _Bool b; rbh_ctor(s, w, b); __CPROVER_assert(0, "VACUITY"); }
+void h_scan4(void){ size_t p; scan4_buffer_size(p); __CPROVER_assert(0, "VACUITY"); }
+#endif
+"""
+PROBE_RB = r"""
+  using ref_t = RBV::reference; P_VAL("PIXEL_BITS", (long)pixel_bit_size<ref_t>::value); P_VAL("BITFIELD_BYTES", (long)sizeof(ref_t::bitfield_t));
+  P_VAL("BITFIELD_LOAD_BYTES", (long)sizeof(ref_t::bitfield_t));      /* what get_data() of the packed channel reference copies (static_copy_bytes<sizeof(bit field)>, C08) */
+"""
+for _n, _t in (('gray4', 'gray4_image_t::view_t'), ('gray1', 'gray1_image_t::view_t'), ('gray2', 'gray2_image_t::view_t')):
+    UNITS.append(Unit('row_buffer.' + _n, 'C11', RB_C, extracts=X_RB, replay=REPLAY_PITCH, probe=PROBE_RB, probe_includes=['boost/gil.hpp', 'boost/gil/io/typedefs.hpp', 'boost/gil/extension/toolbox/metafunctions/pixel_bit_size.hpp'],
+                      insts=[(_n, 'quick', {'T_RBV': _t})],
+                      checks=[Check('row_buffer_helper', 'h_rbh', enforce='rbh_ctor', timeout=300)] + ([Check('scanline_4bit', 'h_scan4', enforce='scan4_buffer_size', timeout=300)] if _n == 'gray4' else []),
+                      assumed=['a bit-aligned pixel access copies sizeof(bit field) bytes starting at the byte of the pixel\'s first bit (packed_channel_reference_base::get_data, under contract in C08)']))
+
 META = dict(not_covered=['PNG, JPEG, TIFF (external C libraries, setjmp/longjmp), TARGA header validation and uncompressed / row hand-over loops, the template drivers reader_base::init_image / read_image and the file system',
                          'BMP read_palette_image / read_data row loops and the hand-over of rows to the colour-conversion policy: only the bounded native windows exercise them',
                          'time proportional to input beyond the decreases clause of the PNM token loop'])
